@@ -55,6 +55,50 @@ fn needed_lets(scope: &[syn::Local], mut needed: BTreeSet<String>, declared: &BT
     used
 }
 
+/// `let mut x = e;` among `stmts` where `x` occurs in the tokens of a macro invocation of `region` (other than the logging
+/// macros): `x` may be assigned inside the macro, which is not parsed; the value is replaced by something outside the
+/// subset, so that the binding is poisoned (using it is an error that says why)
+fn poison_macro_mutated(stmts: &mut [Stmt], region: &Block, ignore: &[String]) {
+    struct Macs<'m> {
+        ignore: &'m [String],
+        idents: BTreeSet<String>,
+    }
+    impl<'m, 'ast> Visit<'ast> for Macs<'m> {
+        fn visit_macro(&mut self, m: &'ast syn::Macro) {
+            let name = m.path.segments.last().map(|s| s.ident.to_string()).unwrap_or_default();
+            if !self.ignore.iter().any(|i| *i == name) {
+                self.idents.extend(idents_of(&m.tokens));
+            }
+        }
+        fn visit_item(&mut self, _: &'ast Item) {}
+    }
+    let mut macs = Macs { ignore, idents: BTreeSet::new() };
+    macs.visit_block(region);
+    fn mut_names(p: &Pat, out: &mut Vec<String>) {
+        match p {
+            Pat::Ident(i) if i.mutability.is_some() => out.push(i.ident.to_string()),
+            Pat::Type(t) => mut_names(&t.pat, out),
+            Pat::Tuple(t) => t.elems.iter().for_each(|e| mut_names(e, out)),
+            Pat::Paren(r) => mut_names(&r.pat, out),
+            _ => {}
+        }
+    }
+    for s in stmts.iter_mut() {
+        if let Stmt::Local(l) = s {
+            let mut names = Vec::new();
+            mut_names(&l.pat, &mut names);
+            if names.iter().any(|n| macs.idents.contains(n)) {
+                if let Some(init) = &mut l.init {
+                    if let Ok(e) = syn::parse_str::<Expr>("may_be_assigned_inside_a_macro_invocation!()") {
+                        init.expr = Box::new(e);
+                        init.diverge = None;
+                    }
+                }
+            }
+        }
+    }
+}
+
 fn pat_idents(p: &Pat, out: &mut Vec<String>) {
     match p {
         Pat::Ident(i) => out.push(i.ident.to_string()),
@@ -90,6 +134,8 @@ enum Target {
     ForIter(String),
     /// the tail expression of the scoped block (component i of it when it is a tuple)
     Tail(Option<usize>),
+    /// the value a `let <pattern binding this name> = <value> else { .. };` tests (fifth round)
+    LetElse(String),
 }
 
 /// one step of a request's `scope`: narrows the search to the body of an arm / a `for` loop / a closure
@@ -243,6 +289,17 @@ impl<'a, 'ast> Visit<'ast> for Locator<'a> {
                 }
             }
         }
+        if let Target::LetElse(name) = self.target {
+            let mut ids = Vec::new();
+            pat_idents(&l.pat, &mut ids);
+            if ids.iter().any(|i| i == name) {
+                if let Some(init) = &l.init {
+                    if init.diverge.is_some() {
+                        self.hits.push((self.scope.clone(), (*init.expr).clone(), l.span()));
+                    }
+                }
+            }
+        }
         syn::visit::visit_local(self, l);
     }
     fn visit_expr(&mut self, e: &'ast Expr) {
@@ -258,7 +315,7 @@ impl<'a, 'ast> Visit<'ast> for Locator<'a> {
                     }
                 }
             }
-            Target::ForIter(_) | Target::Tail(_) => {}
+            Target::ForIter(_) | Target::Tail(_) | Target::LetElse(_) => {}
             Target::CallArg { name, arg, recv_contains } => {
                 if call_name(e).as_deref() == Some(name.as_str()) {
                     let (args, recv): (Vec<&Expr>, String) = match e {
@@ -464,6 +521,8 @@ impl<'u> Tr<'u> {
             Target::Recv(r.to_owned())
         } else if let Some(r) = of.get("for_iter").and_then(|v| v.as_str()) {
             Target::ForIter(r.replace(' ', ""))
+        } else if let Some(l) = of.get("let_else").and_then(|v| v.as_str()) {
+            Target::LetElse(l.to_owned())
         } else if of.get("tail").is_some() {
             Target::Tail(of.get("component").and_then(|v| v.as_u64()).map(|c| c as usize))
         } else {
@@ -477,6 +536,7 @@ impl<'u> Tr<'u> {
             Target::ForIter(p) => format!("what `for {p} in ..` iterates over"),
             Target::Tail(None) => "the tail expression".to_owned(),
             Target::Tail(Some(i)) => format!("component {i} of the tail expression"),
+            Target::LetElse(l) => format!("the value tested by `let .. {l} .. = .. else {{ .. }}`"),
         };
         let (outer, scoped_stmts, scope_text) = self.resolve_scope(rq, body, sig.ident.span())?;
         let what = format!("{what}{scope_text}");
@@ -490,6 +550,42 @@ impl<'u> Tr<'u> {
             );
         }
         let (scope, expr, at) = loc.hits.pop().unwrap();
+        if let Target::LetElse(_) = &target {
+            // the else block of that `let` must hold the ONLY `return Ok(..)` of the function (closures are functions
+            // of their own): every other way to leave it successfully is its end
+            struct OkReturns(Vec<Span>);
+            impl<'ast> Visit<'ast> for OkReturns {
+                fn visit_expr_return(&mut self, r: &'ast syn::ExprReturn) {
+                    if let Some(x) = &r.expr {
+                        if norm(x).starts_with("Ok(") {
+                            self.0.push(r.span());
+                        }
+                    }
+                    syn::visit::visit_expr_return(self, r);
+                }
+                fn visit_expr_closure(&mut self, _: &'ast syn::ExprClosure) {}
+                fn visit_expr_async(&mut self, _: &'ast syn::ExprAsync) {}
+                fn visit_item(&mut self, _: &'ast Item) {}
+            }
+            let mut oks = OkReturns(Vec::new());
+            oks.visit_block(body);
+            let inside = |sp: &Span| {
+                let (a, b, x) = (at.start(), at.end(), sp.start());
+                (x.line, x.column) >= (a.line, a.column) && (x.line, x.column) <= (b.line, b.column)
+            };
+            if oks.0.len() != 1 || !inside(&oks.0[0]) {
+                let lines: Vec<String> = oks.0.iter().map(|s| s.start().line.to_string()).collect();
+                return self.err(
+                    at,
+                    format!("`{}`: the else block of {what} must hold the only `return Ok(..)` of the function; `return Ok(..)` at lines {}", rq.item, lines.join(", ")),
+                );
+            }
+            self.notes.push(format!(
+                "{name}: the else block of that `let` (line {}) holds the only `return Ok(..)` of {} outside closures (checked syntactically); macros are not looked into",
+                at.start().line,
+                rq.item
+            ));
+        }
         // the declared free variables
         let mut env = Env { self_ty: self_ty.clone(), allow_sub: rq.allow_sub, ignore_assign: rq.ignore_assign.clone(), ..Env::default() };
         let mut binders = Vec::new();
@@ -577,6 +673,9 @@ impl<'u> Tr<'u> {
             }
         }
         let mut stmts: Vec<Stmt> = used.into_iter().map(Stmt::Local).collect();
+        // a `let mut` that is mentioned inside a macro invocation (`tokio::select!`) may be assigned there, where the
+        // check above cannot look: its binding is not usable
+        poison_macro_mutated(&mut stmts, body, &self.spec.ignore_macros);
         stmts.push(Stmt::Expr(expr.clone(), None));
         let hint = match &rq.ty {
             Some(t) => {
@@ -1759,6 +1858,30 @@ impl<'u> Tr<'u> {
                     Expr::Call(c) => c.args.iter().collect(),
                     _ => vec![],
                 };
+                if let Some(idx) = self.effect_args.clone() {
+                    let hs: Vec<Option<Ty>> = match ety.as_ref() {
+                        Some(Ty::Tuple(ts)) if ts.len() == idx.len() => ts.iter().cloned().map(Some).collect(),
+                        _ => vec![None; idx.len()],
+                    };
+                    let mut gs = Vec::new();
+                    let mut ts = Vec::new();
+                    for (i, h) in idx.iter().zip(hs.iter()) {
+                        let a = match args.get(*i) {
+                            Some(a) => *a,
+                            None => return self.err(e.span(), format!("`{callee}` is called with {} arguments (argument {i} is needed)", args.len())),
+                        };
+                        if contains_call_named(a, callee) {
+                            return self.err(e.span(), format!("nested calls of `{callee}`"));
+                        }
+                        let (g, t) = self.expr(a, env, h.as_ref())?;
+                        gs.push(g.render(0));
+                        ts.push(t);
+                    }
+                    if ety.is_none() {
+                        *ety = Some(Ty::Tuple(ts));
+                    }
+                    return Ok(raw(format!("(cons ({}) nil)", gs.join(", "))));
+                }
                 let arg = match self.effect_arg {
                     None => {
                         if args.len() != 1 {
@@ -1808,6 +1931,44 @@ impl<'u> Tr<'u> {
                 *ety = ety2;
                 Ok(r.0)
             }
+            // `callee!(..).map_err(f)?`: an adapter on the value of the recorded call
+            Expr::MethodCall(m) if !m.args.iter().any(|a| contains_call_named(a, callee)) => {
+                self.effects_expr(&m.receiver, env, callee, ety)
+            }
+            // `for pat in xs { .. callee(v) .. }`: the values of every turn, in order (fifth round)
+            Expr::ForLoop(fl) if fl.label.is_none() => {
+                struct Exits(bool);
+                impl<'ast> Visit<'ast> for Exits {
+                    fn visit_expr_break(&mut self, _: &'ast syn::ExprBreak) {
+                        self.0 = true;
+                    }
+                    fn visit_expr_continue(&mut self, _: &'ast syn::ExprContinue) {
+                        self.0 = true;
+                    }
+                    fn visit_expr_return(&mut self, _: &'ast syn::ExprReturn) {
+                        self.0 = true;
+                    }
+                    fn visit_expr_closure(&mut self, _: &'ast syn::ExprClosure) {}
+                    fn visit_item(&mut self, _: &'ast Item) {}
+                }
+                let mut ex = Exits(false);
+                ex.visit_block(&fl.body);
+                if ex.0 {
+                    return self.err(fl.span(), format!("`{callee}` is called in a loop with `break` / `continue` / `return`"));
+                }
+                let (it, itt) = self.expr(&fl.expr, env, None)?;
+                let elem = match itt {
+                    Ty::List(t) => *t,
+                    t => return self.err(fl.span(), format!("`for` over a value of type {}", t.coq())),
+                };
+                let mut env2 = env.clone();
+                let binder = match &*fl.pat {
+                    Pat::Tuple(_) => format!("'{}", self.pattern(&fl.pat, &elem, &mut env2)?),
+                    p => self.pattern(p, &elem, &mut env2)?,
+                };
+                let body = self.effects_block(&fl.body.stmts, &env2, callee, ety)?;
+                Ok(app("List.flat_map", vec![raw(format!("(fun {binder} => {})", body.render(6))), it]))
+            }
             _ => self.err(e.span(), format!("`{callee}` is called in a position the effect list does not follow (loop, closure, argument)")),
         }
     }
@@ -1839,8 +2000,20 @@ impl<'u> Tr<'u> {
             }
             None => None,
         };
+        // `of: {"args": [i, j]}`: the recorded value is the tuple of these arguments (fifth round)
+        self.effect_args = rq.of.as_ref().and_then(|o| o.get("args")).and_then(|v| v.as_array()).map(|a| {
+            a.iter().filter_map(|v| v.as_u64()).map(|v| v as usize).collect::<Vec<_>>()
+        });
+        let saved_opaque = std::mem::take(&mut self.opaque);
+        self.in_progress.push(format!("fn {}", rq.item));
         let g = self.effects_block(&stmts, &env, &callee, &mut ety);
+        self.in_progress.pop();
         self.effect_arg = None;
+        self.effect_args = None;
+        if g.is_ok() {
+            self.opaque_binders(&mut binders);
+        }
+        self.opaque = saved_opaque;
         let g = g?;
         let ety = match ety {
             Some(t) => t,
@@ -1892,14 +2065,21 @@ impl<'u> Tr<'u> {
         let mut env = Env {
             self_ty: self_ty.clone(),
             ret: Some(hint.clone()),
-            events_enum: Some(rq.events.clone().unwrap_or_default()),
+            // (without `events`: the plain value of the closure)
+            events_enum: rq.events.clone(),
             ..Env::default()
         };
         let mut binders = Vec::new();
         self.declare_params(rq, self_ty.as_deref(), &mut env, &mut binders)?;
         self.cur_file = self.u.files[file].clone();
         let (g, t) = self.block(&stmts, &env, &K::Value(Some(hint.clone())))?;
-        let t = if t == Ty::Never { Ty::Tuple(vec![Ty::List(Box::new(Ty::Str)), hint.clone()]) } else { t };
+        let t = if t != Ty::Never {
+            t
+        } else if rq.events.is_some() {
+            Ty::Tuple(vec![Ty::List(Box::new(Ty::Str)), hint.clone()])
+        } else {
+            hint.clone()
+        };
         let text = format!("Definition {name} {} : {} :=\n  {}.", binders.join(" "), t.coq(), g.render(2));
         let mut hashed = proc_macro2::TokenStream::new();
         for s in &stmts {
